@@ -14,6 +14,7 @@ C08.f  [sib] payload and void specialisations of updatePlan agree after erasing 
 C08.g  the plan-exists gate: set by append only, cleared by the full reset only (shares C09.b).
 C08.h  [summary] succeed(id)/fail(id) set exactly the bit of id and the cycle result; the parameterless forms report for the caller.
 C08.i  the per-cycle status is reset on every path after the plan step (shares C09.e).
+C08.k  [must-write] PlanDataT::clear(), deactivation and load reset the whole plan state, task links included (shares C09.f).
 C08.j  [summary] order across plan edits: linkTask appends at the tail, PlanT::remove unlinks exactly the given task, the plan
        iterators step to the successor cached before a removal (shares the per-operation summaries C10.b/d/e).
 """
@@ -366,6 +367,9 @@ def run(run):
             run.guard('iterator rules', _c10.iterator_rules, run, F, E)
             for r_ in ('C10.a', 'C10.b', 'C10.c', 'C10.d', 'C10.e', 'C10.f'):
                 run.relabel(r_, 'C08.j')
+            # a full reset (deactivation, load) forgets every task *and its links*: links that survive would be inherited by the tasks of
+            # the next plan (a task that was never appended fires)
+            run.guard('reset completeness', _c09.reset_completeness, run, F, E, 'C08.k')
             # C08.c: the scan's activity predicate
             run.guard('check is active', c06.check_is_active, run, F)
             facts.drop(F)
@@ -391,6 +395,7 @@ def run(run):
     run.guard('report', static_units.report, run, 'C08.d', 'taskstatus')
     run.floor('C08.a', 10)
     run.floor('C08.j', 20)
+    run.floor('C08.k', 4)
     run.floor('C08.b', 10)
     run.floor('C08.c', 20)
     run.floor('C08.d', 40)
